@@ -49,8 +49,8 @@ func invParity(v ssa.Value, param string) (int, bool) {
 }
 
 func checkC19(p *ana.Prog, r *ana.Result) {
-	r.Explain("C19 (structural necessary conditions) for adjustments.(*Pll).Do: who may step - the only SystemClock.Step call of package adjustments is in Pll.Do, reachable only on the arm mode == 1 through mdt > 2 s, weight > 3 and |offset| > 1 ms, its argument is the caller's offset through an even number of sign inversions, and that arm then records t0 and advances the mode; restart - every path from entry to the mode dispatch passes either epoch == clk.Epoch() or the reset mode <- 0 (with epoch <- clk.Epoch()), and mode 0 only records t0 and advances; slew bound - the first argument of the only Adjust call is Duration(p) where p is 0 on all arms except tracking, where it passes the two one-sided clamps against +-d*500e-6 with d = math.Ceil(dt); positive duration - Adjust is reachable only through d > 0 for the very d converted into its duration argument. The slew bound is decided on values: p as it reaches Adjust is followed through merges, min/max and the comparisons with +-d*500e-6 that dominate each incoming edge (two ifs, if/else-if, min/max, a limit kept in a variable are all the same to the rule).")
-	r.Undecided("finiteness of the integrator l.i and of the frequency argument, the gain schedule, monotonic-clock assumption (panic arms noted), the SystemClock implementation")
+	r.Explain("C19 (structural necessary conditions) for adjustments.(*Pll).Do: who may step - the only SystemClock.Step call of package adjustments is in Pll.Do, reachable only on the arm mode == 1 through mdt > 2 s, weight > 3 and |offset| > 1 ms, its argument is the caller's offset through an even number of sign inversions, and that arm then records t0 and advances the mode; restart - every path from entry to the mode dispatch passes either epoch == clk.Epoch() or the reset mode <- 0 (with epoch <- clk.Epoch()), and mode 0 only records t0 and advances; slew bound - the first argument of the only Adjust call is Duration(p) where p is 0 on all arms except tracking, where it passes the two one-sided clamps against +-d*500e-6 with d = math.Ceil(dt); positive duration - Adjust is reachable only through d > 0 for the very d converted into its duration argument. The slew bound is decided on values: p as it reaches Adjust is followed through merges, min/max and the comparisons with +-d*500e-6 that dominate each incoming edge (two ifs, if/else-if, min/max, a limit kept in a variable are all the same to the rule). Weight: the weight parameter is used only in ordered comparisons (and logging), or a NaN test exists where it is used as a value - a NaN weight selects an arm and cannot reach the gains, the integrator or the frequency.")
+	r.Undecided("finiteness of the integrator l.i and of the frequency argument for finite inputs (only the NaN-weight case is decided), the gain schedule, monotonic-clock assumption (panic arms noted), the SystemClock implementation")
 	fn := mustFunc(p, r, "core/sync/adjustments", "(*Pll).Do")
 	if fn == nil {
 		return
